@@ -113,7 +113,7 @@ Proof.
   - constructor.
   - constructor.
   - repeat constructor. cbn. tauto.
-  - repeat constructor. cbn. lia.
+  - constructor; [cbn; lia|constructor].
   - cbn. discriminate.
   - vm_compute. discriminate.
 Qed.
@@ -139,7 +139,7 @@ Example dialogue_computed :
       (count_best out, match en_game e with Some g => List.length (g_hist g) | None => 99%nat end,
        last (printed_lines out) "")
   | _ => (9%nat, 99%nat, "")
-  end = (2%nat, 3%nat, "bestmove g8f6").
+  end = (2%nat, 3%nat, "bestmove b8c6").
 Proof. vm_compute. reflexivity. Qed.
 
 Example gui_dialogue_instance :
